@@ -76,6 +76,7 @@ structure Data where
 
 def hour : Int := 3600000000000
 def maxNanoTime : Int := 9223372036854775806      -- models.MaxNanoTime (Gen-checked)
+def minNanoTime : Int := -9223372036854775806     -- models.MinNanoTime (Gen-checked)
 def zeroTimeOffset : Int := 62135596800000000000  -- ns between year 1 and the Unix epoch
 def maxNameLen : Nat := 255
 
@@ -256,8 +257,9 @@ def createShardGroup (d : Data) (dbn rpn : String) (ts : Int) : R :=
         let replicaN : Nat := replicaI.toNat          -- owners per shard (`for j < replicaN`)
         -- `shardN*replicaN % n != 0` with Go's truncated remainder ⇔ n ∤ shardN·|replicaN|
         let shardN := shardNFor replicaI.natAbs n (n + 1) 1
-        let start0 := truncateTime ts rp.sgDuration
-        let end0 := start0 + rp.sgDuration
+        let startT := truncateTime ts rp.sgDuration
+        let end0 := startT + rp.sgDuration
+        let start0 := if startT < minNanoTime then minNanoTime else startT
         let end1 := if end0 > maxNanoTime then maxNanoTime + 1 else end0
         let (s, e) := clip ts rp.groups (start0, end1)
         let sg : SG := { id := d.maxSG + 1, start := s, stop := e, del := .live, trunc := none,
